@@ -227,7 +227,8 @@ pub fn run(opts: &Opts) -> Report {
             cx.case("in-map-nonstr", "x in r", &[b("x", x), b("r", &pool::map_of(&[("a", CelValue::Int(1))]))], Some("E".into()), "non-string `in` map must be an error");
         }
         // ---- maps: entry lists with duplicates, last entry wins at compile time and at run time
-        let keys = ["a", "b", "c", "", "é", "k1"];
+        // some keys are also names of built-in functions, macros and types: the field must still win under `.k`
+        let keys = ["a", "b", "c", "", "é", "k1", "size", "filter", "int", "string"];
         let n_maps = if opts.thorough { 600 } else { 120 };
         let mut entry_lists: Vec<Vec<(usize, CelValue)>> = vec![
             vec![],
@@ -284,6 +285,9 @@ pub fn run(opts: &Opts) -> Report {
                     cx.case("map-in-literal", &format!("{} in {}", klit(ki), all_lit), &[], Some(exp_in.into()), "compile-time key presence");
                 }
                 if k.chars().all(|c| c.is_ascii_alphanumeric()) && !k.is_empty() {
+                    // `m.size` with no field `size` names the method of that name (C12: a field wins over a method); without a
+                    // call that is some error, whose kind the property does not fix
+                    let exp_get = if !expect.contains_key(*k) && ["size", "filter", "int", "string"].contains(k) { "E".to_string() } else { exp_get.clone() };
                     cx.case("map-access-bound", &format!("m.{}", k), &[b("m", &mv)], Some(exp_get.clone()), "m.k must be the stored value or an absent-field error");
                     cx.case("map-access-run", &format!("{}.{}", bound_vals, k), &binds, Some(exp_get.clone()), "run-time map, field access");
                     if lit_ok {
